@@ -40,7 +40,7 @@ for wic in (False, True):
     times, start = [1.0, 2.5, 4.0], 0.5
     r = run_pipeline(processor=Processor(detector=det, pipeline=pipe), readout=Readout(times=times, start_time=start, non_destructive=True), outputs=None, debug=False, with_inherited_coords=wic)
     node = r['/bucket'] if wic else r
-    for name in ('photon', 'pixel', 'signal', 'image'):
+    for name in ('photon', 'pixel', 'signal', 'image', 'charge'):
         da = node[name]
         if list(da['time'].values) != [start + t for t in times] or da.shape != (3, 3, 4):
             VIOLATED, DETAIL = True, f'{name}: time labels {list(da["time"].values)} shape {da.shape}'; break
@@ -107,6 +107,83 @@ def to_xarray(u: Unit):
                           zb(coords.get("y").info.get("kwargs", {}).get("dims").v == "y" and coords.get("x").info.get("kwargs", {}).get("dims").v == "x") if ok_coords else z3.BoolVal(False))
             u.oblige(p, f"to_xarray.values_coords[{bucket}]", goal, {}, REC_REPLAY)
         u.static(f"to_xarray.cover[{bucket}]", n_full >= 1, fi.qualname, f"{n_full} paths exporting a non-empty container")
+
+
+@unit("C03", "alias")
+def alias(u: Unit):
+    """A slice already handed to xarray must not change when the detector is used further. Lemma, per container c:
+         copies[c]   to_xarray hands xarray a freshly allocated array (not reachable from the detector), or
+         aliased[c]  it hands over c._array itself; then Detector.empty (run at the start of EVERY step, C02 run.entry.*,
+                     before any model writes in place) must REBIND c._array to another cell and leave the old cell's
+                     content untouched, for every value of `reset`.
+       Which of the two holds is computed from the source on each run; nothing is assumed about it."""
+    cfg = D.install(Cfg("real"))
+    cfg.contracts["pyxel/util/misc.py::convert_unit"] = Contract("pyxel/util/misc.py::convert_unit", lambda ex, args, kwargs, fr: VStr("unit"), "unit text (astropy)")
+    table = [("pixel", "pyxel/data_structure/array.py::ArrayBase.to_xarray"), ("signal", "pyxel/data_structure/array.py::ArrayBase.to_xarray"),
+             ("image", "pyxel/data_structure/array.py::ArrayBase.to_xarray"), ("photon", DS + "photon.py::Photon.to_xarray"), ("charge", DS + "charge.py::Charge.to_xarray")]
+    aliased = {}
+    for bucket, qual in table:
+        fi = u.fn(qual)
+        mark = {}
+
+        def setup(ex, bucket=bucket):
+            D.mk_detector(ex, u)
+            if bucket == "charge":
+                ex.st.cell(ex.det_parts["charge"]).fields["_frame"] = D.df_obj(ex, z3.IntVal(0))
+            ex.own = ex.st.cell(ex.det_parts[bucket]).fields["_array"]
+            ex.heap_mark = max(ex.st.heap) + 1
+            return [ex.det_parts[bucket]], {}
+        for p in u.paths(fi, setup, cfg, label=f"{bucket}.to_xarray[alias]"):
+            if p.kind != "return":
+                continue
+            own = p.ex.own.val if isinstance(p.ex.own, VMaybe) else p.ex.own
+            for e in data_array_events(p):
+                for a in list(e[2]) + list(e[3].values()):
+                    if isinstance(a, VRef) and isinstance(p.st.heap.get(a.addr), HArr):
+                        c = p.st.heap[a.addr]
+                        base = c.tag[1] if (c.tag and c.tag[0] == "view") else a.addr
+                        if isinstance(own, VRef) and base == own.addr:
+                            aliased[bucket] = True
+                        else:
+                            u.oblige(p, f"alias.export_is_fresh[{bucket}]", bool(base >= p.ex.heap_mark), {}, REC_REPLAY)
+    fe = u.fn(f"{D.DET}::Detector.empty")
+    u.assume_note("exported containers that alias their live buffer (computed this run): " + (", ".join(sorted(aliased)) or "none"))
+    held = {}
+
+    def setup_e(ex):
+        det = D.mk_detector(ex, u)
+        st = ex.st
+        held.clear()
+        for b in aliased:
+            v = st.cell(ex.det_parts[b]).fields["_array"]
+            r = v.val if isinstance(v, VMaybe) else v
+            if isinstance(r, VRef):
+                held[b] = (r, st.cell(r).elem(G))
+        return [det, VBool(z3.Bool("reset"))], {}
+    ps = u.paths(fe, setup_e, cfg, label="Detector.empty[alias]")
+    for p in ps:
+        if p.kind != "return":
+            u.oblige(p, "alias.empty_no_raise", False, {"exc": p.exc_name()}, REC_REPLAY)
+            continue
+        for b, (old, before) in held.items():
+            now = p.st.cell(p.ex.det_parts[b]).fields["_array"]
+            now_r = now.val if isinstance(now, VMaybe) else now
+            u.oblige(p, f"alias.step_start_rebinds[{b}]", bool(not (isinstance(now_r, VRef) and now_r.addr == old.addr)), {"reset": z3.Bool("reset")}, REC_REPLAY)
+            after = p.st.cell(old).elem(G)
+            same = val_eq(before, after)
+            u.oblige(p, f"alias.exported_slice_untouched[{b}]", same, {"reset": z3.Bool("reset")}, REC_REPLAY)
+    u.cover("alias.cover", ps, lambda p: p.kind == "return")
+    u.static("alias.classified", True, fe.qualname, "aliasing exports: " + (", ".join(sorted(aliased)) or "none"))
+
+
+def val_eq(a, b):
+    if a is b:
+        return True
+    if type(a) is not type(b) and not (isinstance(a, (VInt, VFloat)) and isinstance(b, (VInt, VFloat))):
+        return False
+    if isinstance(a, VBool):
+        return z_bool(a.v) == z_bool(b.v)
+    return to_real(a) == to_real(b)
 
 
 @unit("C03", "extract")
